@@ -36,6 +36,8 @@ type Witness struct {
 	Model   *smt.Model
 	Nondets []NondetVal
 	Prefix  []Decision
+	// clauses that failed on this path inside a listed known-finding region (tolerated natively)
+	KnownClauses []string
 }
 
 // Report of one harness exploration.
